@@ -305,6 +305,14 @@ func (sh *shadow) after(r *hx.Run, w *world, op []string, pre, post *snapshot, c
 		sh.poolInvariants(r, w, name, op, pre, post, cr)
 	}
 	// ------------------------------------------------------------------ votes (C25)
+	if name == "fee" && okOp {
+		// C25: a fee proposal is a vote; only a current consensus validator may cast it (a released ledger entry
+		// ignores the vote without looking at the voter)
+		a, _ := parseAddr(op[2])
+		if !pre.consensusAddrs()[a] && !voteLedgerReleased(pre, op[3], op[4]) {
+			r.Viol("C25:outsider-vote-accepted:fee", fmt.Sprintf("updateFee by %s, which is not a current consensus validator, was accepted", op[2]))
+		}
+	}
 	if name == "vote" || name == "sig" || name == "deposit" {
 		sh.votes(r, name, op, pre, cr)
 	}
@@ -520,6 +528,26 @@ func sameSet(a, b map[string]bool) bool {
 		}
 	}
 	return true
+}
+
+// voteLedgerReleased: the updateFee vote ledger of (chain, view) or (chain, view+1) is already released.
+func voteLedgerReleased(pre *snapshot, chain, view string) bool {
+	for _, dv := range []uint64{0, 1} {
+		id := append([]byte("updateFee"), leBytes(idNum(chain))...)
+		id = append(id, leBytes(idNum(view)+dv)...)
+		if v, ok := pre.vote[hex.EncodeToString(id)]; ok && strings.HasPrefix(v, "true") {
+			return true
+		}
+	}
+	return false
+}
+
+func leBytes(n uint64) []byte {
+	b := make([]byte, 8)
+	for i := 0; i < 8; i++ {
+		b[i] = byte(n >> (8 * uint(i)))
+	}
+	return b
 }
 
 // votes: C25 for CheckVotes (`vote`) and CheckSigns (`sig`).
